@@ -46,7 +46,7 @@ CLAIMED["C19"] = ("5/C19",
    "AST/type-based determinism lint, genesis field-coverage analysis, keeper-field write scan with call-graph classification")
 FIX_COMMITS.append("59282cb358")
 FIX_COMMITS.append("d2a0ad067f")
-FIX_COMMITS += ["35b50d1c51", "5b670324a2", "bcb8c3a391"]
+FIX_COMMITS += ["35b50d1c51", "5b670324a2", "bcb8c3a391", "1a10ebd7f7"]
 
 CLAIMED["C20"] = ("5/C20",
    "Interprocedural guard propagation (rule GI) over the workspace call graph: for all 37 message handlers of concentrated-liquidity, lockup, superfluid, tokenfactory and valset-pref (signer field read from each message's GetSigners), every bounded-depth call path to a privileged sink (lock, position and denom mutators) carries a branch that compares a signer-identity value with the stored object's owner/admin and fails on mismatch — directly, via a checked guard helper, inside the sink on all success paths, or modulo the governance-module equality — with three creation/own-index exemptions listed with side conditions. Also: tokenfactory mint/burn/force-transfer never touch protected module accounts (guards on the very addresses credited/debited, on every iteration over all protected modules; the protected set holds every module account's address).",
